@@ -246,6 +246,22 @@ impl Write for File {
         self.pos = end as u64;
         Ok(n)
     }
+    /// std's default `write_all` retries on `ErrorKind::Interrupted`, which it reads out of io::Error's
+    /// bit-packed representation; CBMC cannot fold that test, so after a failed write the default loop would
+    /// be unwound to the bound. The model never returns `Interrupted`: same semantics, written directly.
+    fn write_all(&mut self, mut buf: &[u8]) -> io::Result<()> {
+        let mut guard = 0;
+        while !buf.is_empty() {
+            match self.write(buf) {
+                Ok(0) => return Err(io::Error::from_raw_os_error(28)),
+                Ok(n) => buf = &buf[n..],
+                Err(e) => return Err(e),
+            }
+            guard += 1;
+            assert!(guard <= 3, "jv_env::fs: more than one short write per call is outside the model");
+        }
+        Ok(())
+    }
     fn flush(&mut self) -> io::Result<()> {
         let d = disk();
         if d.fault() {
